@@ -9,7 +9,7 @@ from vk import core, split
 META = {
     "stubs": ["recursion of aln_continue -> worklist (goto-instrument --replace-calls aln_runner_serial:vstub_push on the compiled aln_controller.c); each step is the REAL aln_runner_serial on a concrete rectangle",
               "substitution matrix copied into one flat object with 23 row pointers (same values)", "error/warning: empty bodies"],
-    "outside": ["sequence lengths above the listed size tuples", "seq-profile kernel beyond 2x3 with groups of 2-3 identical copies; profile-profile kernel (attempted at 1x2 / 2x2 in the thorough tier only); groups of NON-identical sequences",
+    "outside": ["sequence lengths above the listed size tuples", "optimality oracle on the profile kernels beyond the listed split configs (their equality with the sequence-sequence kernel is decided step by step by the kernel differential up to 3x3 / 4x3 rectangles, groups of 2 or 4 identical copies); groups of NON-identical sequences",
                 "the >= 500-column parallel branch of aln_runner with symbolic data (orchestration: C02)",
                 "errors confined to extending a gap of length >= 2 inside the shorter sequence do not change any optimum at these sizes (known blind spot of the bracket oracle)"],
     "assumptions": ["len_a <= len_b (do_align passes the shorter sequence first)", "residues drawn from 4 letters of the alphabet (matrix read through a symbolic index)",
@@ -60,6 +60,7 @@ def run_split(prop, tier, seed, only, cfgs, meta, what):
     import re
     t0 = time.time()
     os.makedirs(core.EVIDENCE, exist_ok=True)
+    os.makedirs(core.BUILD, exist_ok=True)
     if only:
         cfgs = [c for c in cfgs if re.search(only, c.name)]
     import shutil
@@ -116,6 +117,61 @@ def run_split(prop, tier, seed, only, cfgs, meta, what):
     return 1 if violations else 0
 
 
+def kdiff_inst(tname, kernel, la, lb, rect, fp, bp, ka=2, kb=1, nlet=4, timeout=600, mem_gb=8, ob="O2", extra=None, tag=""):
+    """one Hirschberg step of the profile kernels == the sequence-sequence step, scaled (harness/c07_kdiff.c)"""
+    from vk.core import Inst
+    bt, ty = split.TYPES[tname]
+    sa, ea, sb, eb = rect
+    d = {"VK_BIOTYPE": bt, "VK_TYPE": ty, "VK_LA": la, "VK_LB": lb, "VK_NLET": nlet, "VK_WL_MAX": 8, "NOHAVE_AVX2": None,
+         "VK_KERNEL": kernel, "VK_KA": ka, "VK_KB": kb, "VK_SA": sa, "VK_EA": ea, "VK_SB": sb, "VK_EB": eb, "VK_FP": fp, "VK_BP": bp}
+    if extra:
+        d.update(extra)
+    kn = {2: "sp%d" % ka, 3: "pp%d%d" % (ka, kb)}[kernel]
+    return Inst(ob=ob, name="kdiff_%s%s_%s_%dx%d_r%d_%d_%d_%d_p%d%d" % (tag, kn, tname, la, lb, sa, ea, sb, eb, fp, bp), harness="c07_kdiff.c", defs=d,
+                srcs=split.LIB_SRCS, models=["models/vin.c", "models/msg.c"],
+                pre_link=[(["lib/src/aln_controller.c"], ["c07_push.c"], ["--replace-calls", "aln_runner_serial:vstub_push"])],
+                unwind=max(200, 64 * (la + 2) + 2), nb=la + lb, timeout=timeout, mem_gb=mem_gb, replay="solver", no_flags=["--pointer-overflow-check"],
+                # the kernels' loops over the letters present in a profile column: at most nlet letters (the unwinding assertion proves it)
+                unwind_pat=[("aln_profileprofile_foward", r"for \(c = f;c >= 0;c--\)", nlet + 1), ("aln_profileprofile_backward", r"for \(c = f;c >= 0;c--\)", nlet + 1)],
+                flags=["--max-field-sensitivity-array-size", "1024"],   # profile arrays ((len+2)*64 floats) and the template table stay element-wise: constant entries fold
+                funcs=["aln_runner_serial", "aln_continue", "aln_seqseq_foward", "aln_seqseq_backward", "aln_seqseq_meetup"] +
+                      (["aln_seqprofile_foward", "aln_seqprofile_backward", "aln_seqprofile_meetup"] if kernel == 2 else
+                       ["aln_profileprofile_foward", "aln_profileprofile_backward", "aln_profileprofile_meetup"]) + ["make_profile_n", "update_n", "set_gap_penalties_n"],
+                cost=(ea - sa) * (eb - sb) * (30 if kernel == 3 else 10),
+                bound="%s, %s kernels vs sequence-sequence, lengths %dx%d, rectangle rows [%d,%d) columns [%d,%d], boundary patterns %d/%d, %d letters, all residues symbolic" % (
+                    tname, {2: "sequence-profile (%d copies)" % ka, 3: "profile-profile (%d x %d copies)" % (ka, kb)}[kernel], la, lb, sa, ea, sb, eb, fp, bp, nlet),
+                desc="one Hirschberg step of the profile kernels equals the sequence-sequence step scaled by the group sizes")
+
+
+def kdiff_instances(tier):
+    out = []
+    # rectangles: the root and sub-rectangles touching / not touching each end of b (the kernels branch on startb == 0 and
+    # endb == len_b) and of a; boundary patterns 1 (a), 2 (ga), 4 (gb) as handed down by aln_continue
+    if tier == "quick":
+        shapes = [(3, 3, (0, 3, 0, 3), 1, 1), (3, 3, (0, 3, 0, 2), 1, 2), (3, 3, (1, 3, 1, 3), 4, 1), (3, 3, (0, 2, 1, 2), 2, 4), (2, 3, (0, 2, 0, 3), 1, 1), (3, 2, (1, 3, 0, 2), 1, 1)]
+        types = {2: ["protein", "dna"], 3: ["protein"]}
+    else:
+        shapes = []
+        for la, lb in ((3, 3), (2, 4), (4, 3)):
+            for sa in range(la):
+                for ea in range(sa + 1, la + 1):
+                    for sb in range(lb):
+                        for eb in range(sb + 1, lb + 1):
+                            k = sa * 7 + ea * 5 + sb * 3 + eb
+                            shapes.append((la, lb, (sa, ea, sb, eb), (1, 2, 4)[k % 3], (1, 2, 4)[(k // 3) % 3]))
+        types = {2: ["protein", "dna", "divergent"], 3: ["protein", "rna"]}
+    for kernel in (2, 3):
+        for tname in types[kernel]:
+            for la, lb, rect, fp, bp in shapes:
+                out.append(kdiff_inst(tname, kernel, la, lb, rect, fp, bp, ka=2, kb=(2 if kernel == 3 else 1), nlet=(3 if kernel == 3 else 4),
+                                      timeout=600 if tier == "quick" else 1800))
+    if tier != "quick":
+        out.append(kdiff_inst("protein", 2, 3, 3, (0, 3, 0, 3), 1, 1, ka=4))
+        out.append(kdiff_inst("protein", 3, 3, 3, (0, 3, 0, 3), 1, 1, ka=4, kb=2, nlet=3))
+    out.append(kdiff_inst("protein", 2, 2, 2, (0, 2, 0, 2), 1, 1, ka=2, extra={"VK_PROFEQ": None}, tag="profeq_"))
+    return out
+
+
 def combine(prop, tier, seed, only, rc, insts, meta):
     """run ordinary instances after a split exploration and merge the two evidence records"""
     ev_path = os.path.join(core.EVIDENCE, prop + ".json") if not only else os.path.join(core.BUILD, prop + ".partial-evidence.json")
@@ -142,4 +198,7 @@ def run(tier, seed, only):
     # the parallel driver (>= 500 rows): same hand-over contract as the serial one whose data path the split decides
     from vk.props import C02
     insts = [dataclasses.replace(C02.runner_inst(kind, rows), ob="O3") for kind in (1, 2, 3) for rows in ((500,) if tier == "quick" else (500, 501, 999))]
+    insts += kdiff_instances(tier)
+    from vk.props.shared import operand_instances
+    insts += operand_instances("O2", "operands")
     return combine("C07", tier, seed, only, rc, insts, META)
